@@ -13,7 +13,7 @@ META = {
     "outside": "shapes the generator does not produce; suffixes longer than 3 bytes",
     "wall_budget_s": {"quick": 270, "thorough": 1200},
 }
-CORE = ("Startup", "GetRandom", "NV_Read")
+CORE = ("Startup", "GetRandom", "NV_Read", "PolicyCommandCode", "SetCommandCodeAuditStatus")  # the last two carry a TPM_CC as data
 
 
 def cuts(key, lab, data, tr, cfg, step=1):
